@@ -51,8 +51,14 @@ class BitBufferModel:
             attrs["packchar"] = {1: "b", 2: "h", 4: "i", 8: "q"}[size] if signed else {1: "B", 2: "H", 4: "I", 8: "Q"}[size]
         return Sym(label, attrs, {"_write": Host(lambda stream, value: sink.append((label, value))), "_read": Host(lambda stream, *a: source.pop(0))})
 
-    def buffer(self, endian: str) -> Sym:
-        attrs = {"stream": Sym("stream"), "endian": endian, "_type": None, "_buffer": 0, "_remaining": 0}
+    def buffer(self, endian: str, sink: list | None = None) -> Sym:
+        def raw_write(b, sink=sink):
+            if sink is None:
+                raise Refused("raw stream write while folding reads")
+            sink.append(("<raw>", bytes(b)))
+            return len(bytes(b))
+
+        attrs = {"stream": Sym("stream", {}, {"write": Host(raw_write)}), "endian": endian, "_type": None, "_buffer": 0, "_remaining": 0}
         return Sym("bitbuffer", attrs, dict(self.methods))
 
     def call(self, bb: Sym, method: str, *args: Any) -> Any:
@@ -140,15 +146,17 @@ def fold_writes(repo: Repo) -> dict | None:
     m = BitBufferModel(repo)
     out = {"cases": 0, "bad": [], "range_bad": [], "state_bad": []}
     try:
-        for endian in "<>":
+        for endian in "<>!=@":
             for size in (1, 2, 4):
                 total = size * 8
                 for signed, style in ((False, "int"), (True, "int"), (False, "packed"), (True, "packed")):
-                    for seq in width_sequences(total):
+                    # "!", "=" and "@" are byte orders of the storage type; for them only a unit made of one full-width field is folded, whose
+                    # value does not depend on the bit order: what must hold is that the bytes emitted are the storage type's encoding
+                    for seq in (width_sequences(total) if endian in "<>" else [(total,)]):
                         for unit in patterns(total):
                             sink: list = []
                             ft = m.storage_type(f"t{total}", size, signed, style, sink, [])
-                            bb = m.buffer(endian)
+                            bb = m.buffer(endian, sink)
                             off = 0
                             want_unit = 0
                             for bits in seq:
@@ -167,6 +175,14 @@ def fold_writes(repo: Repo) -> dict | None:
                                 out["bad"].append((endian, size, signed, style, seq, unit, sink[:], "exactly one unit write expected"))
                                 continue
                             value = sink[0][1]
+                            if sink[0][0] == "<raw>":
+                                # the unit was emitted as bytes, bypassing the storage type: they must be that type's encoding of the pattern
+                                import sys
+
+                                order = {"<": "little", ">": "big", "!": "big"}.get(endian, sys.byteorder)
+                                if value != want_unit.to_bytes(size, order):
+                                    out["bad"].append((endian, size, signed, style, seq, unit, value.hex(), want_unit.to_bytes(size, order).hex() + " (raw bytes)"))
+                                continue
                             if not isinstance(value, int) or (value - want_unit) % (1 << total) != 0:
                                 out["bad"].append((endian, size, signed, style, seq, unit, value, want_unit))
                                 continue
